@@ -349,6 +349,25 @@ def dict_table_histories(chk, rng, n):
             if bad:
                 chk.violation("C09.NodeValueDiffers", {"source": "dict-table-history", "which": which}, {"table_now": pts2, "table_first": pts1, "mach_tabulated_used": bad[:4]})
 
+    # ONE calculator used for table A, then for table B on the SAME Mach grid (other coefficients), then for A again - and for B once
+    # more: each call uses the table of the shot it was given
+    calc = m.Calculator()
+    grid = [0.0, 0.5, 0.8, 1.0, 1.2, 2.0, 3.0]
+    ptsA = [(x, round(0.2 + 0.05 * math.sin(3 * x) + 0.02 * x, 4)) for x in grid]
+    ptsB = [(x, round(cd * 1.15, 4)) for x, cd in ptsA]
+    mdl = {"A": m.DragModel(0.3, [{"Mach": a, "CD": b} for a, b in ptsA]), "B": m.DragModel(0.3, [{"Mach": a, "CD": b} for a, b in ptsB])}
+    for step, which in enumerate("ABABBA"):
+        pts = ptsA if which == "A" else ptsB
+        shot = m.Shot(weapon=m.Weapon(), ammo=m.Ammo(mdl[which], m.Unit.FPS(2500)))
+        calc.fire(shot, m.Unit.Foot(30), m.Unit.Foot(10))
+        calc._calc._init_trajectory(shot)
+        bad = [(a, b, calc._calc.drag_by_mach(a) * 0.3 / 2.08551e-04) for a, b in pts if abs(calc._calc.drag_by_mach(a) * 0.3 / 2.08551e-04 - b) > 1e-9 * b]
+        chk.count(1, ("same-grid-tables", step))
+        chk.stratum("tables_on_one_grid_alternating_on_one_calculator")
+        if bad:
+            chk.violation("C09.NodeValueDiffers", {"source": "dict-table-history", "which": "tables on the same Mach grid alternating on one calculator"},
+                          {"sequence": "ABABBA"[: step + 1], "mach_tabulated_used": bad[:4]})
+
     def make_table(scale):
         return [{"Mach": 0.5 * i, "CD": round(0.2 + 0.03 * i, 3) * scale} for i in range(7)]
 
@@ -413,7 +432,7 @@ def run(chk: core.Check, replay=None) -> None:
     if bad:
         chk.violation("C09.ShippedTableChangedByLibraryCall", {"tables": bad}, {"tables": bad})
     chk.sample(next(iter(raw.values())))
-    chk.require_strata(["int_at_node", "int_beyond_table", "int_midpoint_or_half", "real_shipped", "real_custom", "real_at_node", "real_beyond", "solver_uses_lookup", "solver_lookup_wind_changes_in_flight", "real_table_edited_in_place_on_a_long_used_calculator", "real_multibc_model", "dict_table_edited_in_place_and_given_again", "same_length_dict_tables_built_and_dropped_in_turn"])
+    chk.require_strata(["int_at_node", "int_beyond_table", "int_midpoint_or_half", "real_shipped", "real_custom", "real_at_node", "real_beyond", "solver_uses_lookup", "solver_lookup_wind_changes_in_flight", "real_table_edited_in_place_on_a_long_used_calculator", "real_multibc_model", "dict_table_edited_in_place_and_given_again", "same_length_dict_tables_built_and_dropped_in_turn", "tables_on_one_grid_alternating_on_one_calculator"])
     chk.rule.append("every table shape (3..%d nodes, gaps 1..3) x every quarter-grid query (TLC Gen_DragLookup) through 2 entry "
                     "points; all 9 shipped tables and seeded custom tables queried at / +-1 ulp / +-1e-9 around every node and "
                     "midpoint and beyond the last entry; non-trivial = query within the table span" % (6 if thorough else 5))
